@@ -32,6 +32,9 @@ type c13Impl struct {
 	suffix string
 }
 
+// c13Unsupported is filled by the builders with a getter of the fake's "outside my grammar" list.
+var c13Unsupported func() []string
+
 func c13Impls(thorough bool) []c13Impl {
 	impls := []c13Impl{
 		{name: "memory", build: func() (ae.Metastore, string) { return persistence.NewMemoryMetastore(), "" }},
@@ -42,13 +45,16 @@ func c13Impls(thorough bool) []c13Impl {
 	}{{"mysql", persistence.MySQL}, {"postgres", persistence.Postgres}, {"oracle", persistence.Oracle}} {
 		d := d
 		impls = append(impls, c13Impl{name: "sql-" + d.dialect, build: func() (ae.Metastore, string) {
-			db := doubles.NewFakeSQL(d.dialect).Open()
-			return persistence.NewSQLMetastore(db, persistence.WithSQLMetastoreDBType(d.t)), ""
+			eng := doubles.NewFakeSQL(d.dialect)
+			c13Unsupported = func() []string { return eng.Unsupported }
+			return persistence.NewSQLMetastore(eng.Open(), persistence.WithSQLMetastoreDBType(d.t)), ""
 		}})
 	}
 	// the default db type without an explicit option must speak MySQL
 	impls = append(impls, c13Impl{name: "sql-default", build: func() (ae.Metastore, string) {
-		return persistence.NewSQLMetastore(doubles.NewFakeSQL("mysql").Open()), ""
+		eng := doubles.NewFakeSQL("mysql")
+		c13Unsupported = func() []string { return eng.Unsupported }
+		return persistence.NewSQLMetastore(eng.Open()), ""
 	}})
 	type dv struct {
 		table  string
@@ -66,6 +72,7 @@ func c13Impls(thorough bool) []c13Impl {
 		}
 		impls = append(impls, c13Impl{name: fmt.Sprintf("dynamodb-v1-table=%s-suffix=%v", tname, v.suffix), build: func() (ae.Metastore, string) {
 			fake := doubles.NewFakeDynamo("us-west-2", tname)
+			c13Unsupported = func() []string { return fake.Unsupported }
 			sess := c13Session()
 			m := dynv1.NewDynamoDBMetastore(sess, dynv1.WithDynamoDBRegionSuffix(v.suffix), dynv1.WithTableName(v.table), dynv1.WithClient(doubles.DynamoV1{F: fake}))
 			want := ""
@@ -76,6 +83,7 @@ func c13Impls(thorough bool) []c13Impl {
 		}})
 		impls = append(impls, c13Impl{name: fmt.Sprintf("dynamodb-v2-table=%s-suffix=%v", tname, v.suffix), build: func() (ae.Metastore, string) {
 			fake := doubles.NewFakeDynamo("us-west-2", tname)
+			c13Unsupported = func() []string { return fake.Unsupported }
 			m, err := dynv2.NewDynamoDB(dynv2.WithDynamoDBClient(doubles.DynamoV2{F: fake}), dynv2.WithTableName(v.table), dynv2.WithRegionSuffix(v.suffix))
 			if err != nil {
 				panic(err)
@@ -332,8 +340,18 @@ func c13BFS(impl c13Impl, nStamps int, deadline time.Time) *KResult {
 			}
 			for _, op := range ops {
 				h2 := append(append([]c13Op{}, h...), op)
+				c13Unsupported = nil
 				key, viols := c13Replay(impl, h2, ids, stamps)
 				res.Transitions++
+				if c13Unsupported != nil {
+					if u := c13Unsupported(); len(u) > 0 {
+						// the implementation now emits a statement / expression the semantic fake does not understand:
+						// that is a gap of the machinery, not evidence against the property
+						res.Cap = "MACHINERY-GAP: the fake backend does not understand: " + u[0]
+						res.Exhaustive = false
+						return res
+					}
+				}
 				for _, v := range viols {
 					res.Counters["violating-transitions"]++
 					sig := v.Sig + "@" + impl.name
